@@ -873,6 +873,14 @@ class Executor:
             smt.forall([a, b], z3.Implies(z3.And(0 <= a, a < b, b < n), idx(a) < idx(b)), patterns=[z3.MultiPattern(idx(a), idx(b))]),
             smt.forall([a], z3.Implies(z3.And(0 <= a, a < view.len, c_at(a)), z3.And(0 <= inv(a), inv(a) < n, idx(inv(a)) == a)), patterns=[inv(a)]),
         )
+        # the same completeness fact, triggered by the SOURCE element at an index (a goal "some source element satisfies the
+        # filter" names the element, not its position in the result)
+        try:
+            src_at = to_v(view.at(a), st)
+            if not z3.is_const(src_at) and any(v.eq(a) for v in __import__("z3.z3util", fromlist=["get_vars"]).get_vars(src_at)):
+                st.assume(smt.forall([a], z3.Implies(z3.And(0 <= a, a < view.len, c_at(a)), z3.And(0 <= inv(a), inv(a) < n, idx(inv(a)) == a)), patterns=[src_at]))
+        except Exception:  # noqa: BLE001 - views without a term for the element: the fact above stands alone
+            pass
         return r
 
     def capture_marks(self, s):
